@@ -90,5 +90,5 @@ InvQueryInside == pc = "stepped" => QueryInside(sc.T[k], sc.T[k + 1], tq2)
 InvStepMatrix  == pc = "stepped" => StepOK(sc, sc.T[k], sc.T[k + 1], used)
 UsedName(s, m) == IF m = ExpMasked(s) /\ m = ExpFull(s) THEN "both" ELSE IF m = ExpMasked(s) THEN "masked" ELSE IF m = ExpFull(s) THEN "full" ELSE "other"
 Log == (pc = "stepped" /\ LogResult) =>
-         PrintT(<<"I", sc.custom, sc.htype, sc.cls, sc.mask, sc.slmEnd, sc.backend, k, tq2, UsedName(sc, used), ExpFull(sc), ExpMasked(sc)>>)
+         PrintT(<<"I", sc.custom, sc.htype, sc.cls, sc.mask, sc.slmEnd, sc.backend, sc.T, k, tq2, UsedName(sc, used), ExpFull(sc), ExpMasked(sc)>>)
 ====
